@@ -249,8 +249,6 @@ def check(payload):
                 incs = fp.walk(tree, fp.F03.Include_Stmt)
                 if len(incs) != 1:
                     key = "unresolved-include-node-count"
-                    if not any(s.kind == "program" for s in P.stmts) and any(s.kind == "end_program" for s in P.stmts) and B["a"] == 0:
-                        key = "main-program-without-program-stmt-drops-leading-include"
                     report(key, "%d Include_Stmt nodes for 1 unresolved INCLUDE line" % len(incs))
                 else:
                     out_lines = [l.strip() for l in str(tree).split("\n") if l.strip() and not l.strip().startswith("!")]
